@@ -88,13 +88,15 @@ Inductive query :=
        (* SELECT * FROM tbl [AS OF commit] WHERE p [ORDER BY pk]; ix = key columns / nullability of the index the
           model evaluates the predicate through, when the predicate has the shape of an index lookup *)
 | QGroup (tbl : nat) (snap : bool) (col : nat)       (* SELECT col, COUNT( * ) FROM tbl GROUP BY col *)
+| QCountP (tbl : nat) (snap : bool) (p : pred)       (* SELECT COUNT( * ) FROM tbl WHERE p  (p handled by an index lookup) *)
 | QCount (tbl : nat) (snap : bool) (keyless : bool) (col : option nat)
 | QJoin (plan : N) (left_outer : bool) (snap : bool) (lt rt : nat) (lc rc : nat) (rwidth : nat)
-        (ord : option (bool * list nat * list nat)).
+        (ord : option (bool * list nat * list nat)) (lp rp : option pred).
        (* SELECT l.*, r.* FROM lt l [LEFT] JOIN rt r ON l.lc = r.rc; plan: 0 merge join, 1 lookup join, else other.
           ord (merge joins): whether the plan puts r on the iterator's left side, and the key columns (indexed columns
           then primary key) of the indexes the plan reads the iterator's left and right side from; when given, the
-          model's row ORDER is compared with dolt's *)
+          model's row ORDER is compared with dolt's.  lp / rp: WHERE restrictions on l's / r's columns (rp only for inner
+          joins), which dolt turns into static multi-range lookups of the join's inputs *)
 
 Record qobs := { q_rows : list row; q_ref : bool; q_err : bool }.
 
@@ -171,6 +173,7 @@ Definition flat_rows (rwidth : nat) (l : list (row * option row)) : list row :=
   map (fun p => fst p ++ match snd p with Some r => r | None => repeat None rwidth end) l.
 
 Definition tables_of (i : input) (snap : bool) := if snap then i_snap i else i_cur i.
+Definition restrict (p : option pred) (rows : list row) : list row := match p with Some q => select q rows | None => rows end.
 
 Definition model_query (i : input) (q : query) : list row :=
   match q with
@@ -187,9 +190,10 @@ Definition model_query (i : input) (q : query) : list row :=
         end
   | QGroup tbl snap c => group_count c (nth tbl (tables_of i snap) [])
   | QCount tbl snap kl col => [[Some (count_answer kl col (nth tbl (tables_of i snap) []))]]
-  | QJoin plan lo snap lt rt lc rc rw ord =>
-      let lrows := nth lt (tables_of i snap) [] in
-      let rrows := nth rt (tables_of i snap) [] in
+  | QCountP tbl snap p => [[Some (Z.of_nat (length (select p (nth tbl (tables_of i snap) []))))]]
+  | QJoin plan lo snap lt rt lc rc rw ord lp rp =>
+      let lrows := restrict lp (nth lt (tables_of i snap) []) in
+      let rrows := restrict rp (nth rt (tables_of i snap) []) in
       match ord with
       | Some (swap, c1, c2) =>
           if swap then flip_rows (run_sm lo (mk_side rc (sort_rows_by c1 rrows)) (mk_side lc (sort_rows_by c2 lrows)))
@@ -208,14 +212,16 @@ Definition spec_query (i : input) (q : query) : list row :=
   | QSel tbl snap p _ _ proj dis lim => shape proj dis lim (select p (nth tbl (tables_of i snap) []))
   | QGroup tbl snap c => group_count c (nth tbl (tables_of i snap) [])
   | QCount tbl snap _ col => [[Some (count_spec col (nth tbl (tables_of i snap) []))]]
-  | QJoin _ lo snap lt rt lc rc rw _ =>
-      flat_rows rw (nl_join lo (mk_side lc (nth lt (tables_of i snap) [])) (mk_side rc (nth rt (tables_of i snap) [])))
+  | QCountP tbl snap p => [[Some (Z.of_nat (length (select p (nth tbl (tables_of i snap) []))))]]
+  | QJoin _ lo snap lt rt lc rc rw _ lp rp =>
+      flat_rows rw (nl_join lo (mk_side lc (restrict lp (nth lt (tables_of i snap) [])))
+                              (mk_side rc (restrict rp (nth rt (tables_of i snap) []))))
   end.
 
 Definition q_ordered (q : query) : bool := match q with QSel _ _ _ o _ _ _ _ => o | _ => false end.
 (* order compared between model and dolt (not part of the property: a join without ORDER BY promises no order) *)
 Definition q_model_ordered (q : query) : bool :=
-  match q with QSel _ _ _ o _ _ _ _ => o | QJoin _ _ _ _ _ _ _ _ (Some _) => true | _ => false end.
+  match q with QSel _ _ _ o _ _ _ _ => o | QJoin _ _ _ _ _ _ _ _ (Some _) _ _ => true | _ => false end.
 
 Definition model_obs (i : input) : obs :=
   {| o_ranges := map (model_range (i_cur i)) (i_ranges i);
